@@ -73,9 +73,29 @@ type InlineIfc struct {
 	Z int
 }
 
+// Labels implements gotype.Folder on a nilable kind (an inline Folder field
+// of a non-nilable kind makes the library call reflect.Value.IsNil on it and
+// panic - a defect of the unclaimed property C11/C12, kept out of the catalogue).
+type Labels map[string]string
+
+func (l Labels) Fold(v structform.ExtVisitor) error {
+	if err := v.OnObjectStart(len(l), structform.StringType); err != nil {
+		return err
+	}
+	for k, s := range l {
+		if err := v.OnKey("label." + k); err != nil {
+			return err
+		}
+		if err := v.OnString(s); err != nil {
+			return err
+		}
+	}
+	return v.OnObjectFinished()
+}
+
 type InlineFolder struct {
 	A string
-	T Celsius `struct:",inline"`
+	T Labels `struct:",inline"`
 	Z []string
 }
 
@@ -382,7 +402,7 @@ var Catalogue = []TypeEntry{
 		return v
 	})),
 	foldOnly(mk("InlineFolder", true, func(c *simkit.Choices) InlineFolder {
-		return InlineFolder{A: genStr(c), T: Celsius(c.N(100)), Z: genSlice(c, genStr)}
+		return InlineFolder{A: genStr(c), T: Labels(genMap(c, genStr)), Z: genSlice(c, genStr)}
 	})),
 	mk("OmitAll", true, func(c *simkit.Choices) OmitAll {
 		o := OmitAll{B: c.Bool(), F: float32(c.N(100)) / 4}
